@@ -85,6 +85,7 @@ type Term struct {
 
 // TB is a term bank (hash-consing table plus declarations).
 type TB struct {
+	SumDefs map[string]*SumDef // summand arrays (see SumArr)
 	UsesIdx bool
 	// Distinct holds pairs of terms known to be different while a spec is evaluated under a case split
 	// (key: smaller ID, larger ID); consulted by Eq so that reads over writes at the other index simplify.
@@ -188,6 +189,79 @@ func (tb *TB) Const(name string, s Sort) *Term {
 		tb.Decls[name] = &Decl{Name: name, Ret: s, ID: len(tb.Decls)}
 	}
 	return tb.intern(&Term{Op: "const", Name: name, Sort: s})
+}
+
+// SumDef is the definition of a summand array: Arr[k] = Body(k) for all k.
+type SumDef struct {
+	Arr  *Term
+	Var  *Term
+	Body *Term
+	Free []*Term // enclosing bound variables the summand depends on
+}
+
+// SumVar is the canonical bound variable of summation bodies at nesting depth d (canonical so that equal summands
+// written twice yield the same term and hence the same summand array).
+func (tb *TB) SumVar(d int) *Term {
+	return tb.intern(&Term{Op: "bound", Name: fmt.Sprintf("k!sum%d", d), Sort: SInt})
+}
+
+// FreeBound lists the bound variables occurring in t (in order of creation), except those in skip.
+func (tb *TB) FreeBound(t *Term, skip ...*Term) []*Term {
+	sk := map[*Term]bool{}
+	for _, x := range skip {
+		sk[x] = true
+	}
+	seen := map[*Term]bool{}
+	var out []*Term
+	var walk func(x *Term)
+	walk = func(x *Term) {
+		if x == nil || seen[x] || !x.Bound {
+			return
+		}
+		seen[x] = true
+		if x.Op == "bound" {
+			if !sk[x] {
+				out = append(out, x)
+			}
+			return
+		}
+		if x.Op == "forall" || x.Op == "exists" {
+			for _, v := range x.Vars {
+				sk[v] = true
+			}
+		}
+		for _, a := range x.Args {
+			walk(a)
+		}
+	}
+	walk(t)
+	sort.Slice(out, func(i, j int) bool { return out[i].ID < out[j].ID })
+	return out
+}
+
+// SumArr names the array k -> body(k): a constant - or, when the summand mentions variables bound by an enclosing
+// quantifier, a function of those variables - defined by the axiom forall (outer vars,) k. arr[k] = body.
+func (tb *TB) SumArr(v, body *Term) *Term {
+	name := fmt.Sprintf("sumarr!%d", body.ID)
+	fvs := tb.FreeBound(body, v)
+	var arr *Term
+	if len(fvs) == 0 {
+		arr = tb.Const(name, SArrI)
+	} else {
+		arr = tb.App(name, SArrI, fvs...)
+	}
+	if tb.SumDefs == nil {
+		tb.SumDefs = map[string]*SumDef{}
+	}
+	if _, ok := tb.SumDefs[name]; !ok {
+		tb.SumDefs[name] = &SumDef{Arr: arr, Var: v, Body: body, Free: fvs}
+	}
+	return arr
+}
+
+// Psum(arr, n) = arr[0] + ... + arr[n-1] (uninterpreted; unfolding and congruence instances are added per script).
+func (tb *TB) Psum(arr, n *Term) *Term {
+	return tb.App("psum", SInt, arr, n)
 }
 
 // Fresh returns a new constant with a unique name derived from hint.
